@@ -81,6 +81,14 @@ CORPUS_C10 = [
     dict(types=[T1], delay=1000, qnone=True, violates_hyp=False, horizon=3400000,
          events=[('browse', 0, 57), ('resp', 2250018, [rec('KPointer', T1, 12, 1, alias='X.' + T1, ttl=9000)]),
                  ('resp', 2250021, [rec('KPointer', T1, 12, 1, alias='x.' + T1, ttl=1125)])]),
+    # a refresh with a shorter TTL whose 75 % point coincides with the one already scheduled (no-churn window): the 85 % and 95 % attempts
+    # must follow the refreshed record's TTL (repaired defect C10-no-churn-ttl, repro/c10_no_churn_ttl.py)
+    dict(types=[T1], delay=10000, qnone=True, violates_hyp=False, horizon=4000000,
+         events=[('browse', 0, 20), ('resp', 20000, [rec('KPointer', T1, 12, 1, alias='x.' + T1, ttl=4500)]),
+                 ('resp', 20000 + 2531250, [rec('KPointer', T1, 12, 1, alias='x.' + T1, ttl=1125)])]),
+    dict(types=[T1], delay=10000, qnone=False, violates_hyp=False, horizon=4200000,
+         events=[('browse', 0, 57), ('resp', 50000, [rec('KPointer', T1, 12, 1, alias='y.' + T1, ttl=4500)]),
+                 ('resp', 50000 + 1875000, [rec('KPointer', T1, 12, 1, alias='y.' + T1, ttl=2000)])]),
     # churn inside the no-reschedule window: learned, withdrawn and learned again within the inter-query delay, then left alone until it expires
     dict(types=[T1], delay=10000, qnone=True, violates_hyp=False, horizon=4700000,
          events=[('browse', 0, 20), ('resp', 30000, [rec('KPointer', T1, 12, 1, alias='x.' + T1, ttl=4500)]),
